@@ -189,16 +189,42 @@ var wlTermination = Workload{
 // wlExhaustion drives the topic-ID space to exhaustion with SUBSCRIBEs.
 var wlExhaustion = Workload{
 	Name: "exhaustion",
-	N:    func(r *rt.Run) int { return r.N(2, 5) },
+	N:    func(r *rt.Run) int { return r.N(3, 8) },
 	Run: func(t *testing.T, c *rt.Case, i int, rng *rand.Rand) *GWRun {
-		pres := []topics.PredefinedTopics{
-			{"*": {1: "pre/one", 2: "pre/two", 3: "pre/three"}},
-			{"cl": {65534: "pre/last", 1: "pre/first"}, "*": {300: "pre/mid"}},
-			{},
-			{"*": {65533: "pre/a"}, "cl": {65532: "pre/b", 2: "pre/c"}},
-			{"other": {1: "not/visible"}},
+		// Layouts 0-2 predefine most of the ID space (the free IDs are few and scattered), so that
+		// exhaustion is reached after a few thousand allocations: topic lookup in the gateway is
+		// linear in the number of registered topics, a full 65534-allocation run costs minutes.
+		// Layouts 3-7 (thorough tier) exhaust the whole space.
+		dense := func(client string, free func(id int) bool) map[uint16]string {
+			m := map[uint16]string{}
+			for id := 1; id <= 0xFFFE; id++ {
+				if !free(id) {
+					m[uint16(id)] = fmt.Sprintf("pre/%s/%d", client, id)
+				}
+			}
+			return m
 		}
-		pre := pres[i%len(pres)]
+		pres := []func() topics.PredefinedTopics{
+			func() topics.PredefinedTopics {
+				return topics.PredefinedTopics{"*": dense("any", func(id int) bool { return id%16 == 0 || id > 65500 })}
+			},
+			func() topics.PredefinedTopics {
+				return topics.PredefinedTopics{"*": dense("any", func(id int) bool { return id > 61000 }), "cl": dense("cl", func(id int) bool { return id <= 61000 || id > 63000 })}
+			},
+			func() topics.PredefinedTopics {
+				return topics.PredefinedTopics{"cl": dense("cl", func(id int) bool { return id < 2000 || id == 0xFFFE }), "other": {5: "not/visible"}}
+			},
+			func() topics.PredefinedTopics { return topics.PredefinedTopics{"*": {1: "pre/one", 2: "pre/two", 3: "pre/three"}} },
+			func() topics.PredefinedTopics {
+				return topics.PredefinedTopics{"cl": {65534: "pre/last", 1: "pre/first"}, "*": {300: "pre/mid"}}
+			},
+			func() topics.PredefinedTopics { return topics.PredefinedTopics{} },
+			func() topics.PredefinedTopics {
+				return topics.PredefinedTopics{"*": {65533: "pre/a"}, "cl": {65532: "pre/b", 2: "pre/c"}}
+			},
+			func() topics.PredefinedTopics { return topics.PredefinedTopics{"other": {1: "not/visible"}} },
+		}
+		pre := pres[i%len(pres)]()
 		cfg := world.GWConfig{Predefined: pre, RetryDelay: 10 * time.Second, RetryCount: 1}
 		bcfg := world.BrokerCfg{FirstID: 40000}
 		g := &GWRun{Cfg: cfg, BCfg: bcfg, NSess: 1}
@@ -218,13 +244,22 @@ var wlExhaustion = Workload{
 				return mid
 			}
 			n := 0
+			nfree := 0
+			refPre := toPredef(pre)
+			for id := 1; id <= 0xFFFE; id++ {
+				if !refPre.Visible("cl", uint16(id)) {
+					nfree++
+				}
+			}
 			for k := 0; k < 66000; k++ {
 				s.SNSendP(snref.SubscribeName(nextMid(), 0, fmt.Sprintf("n/%d", k)))
 				n++
 				if k%4096 == 4095 {
 					synctest.Wait()
 				}
-				if k > 65000 {
+				// lock-step near the end of the free IDs: on the wire a refusal (sent at once) would
+				// otherwise overtake the SUBACK of the last accepted allocation (sent after the broker's SUBACK)
+				if k > nfree-40 || k%256 == 255 {
 					synctest.Wait()
 					// stop as soon as one refusal was seen
 					evs := w.Tr.Events()
